@@ -91,6 +91,10 @@ pub fn run(ctx: &Ctx, rep: &mut Report) {
     for uni in ctx.my_universes(total) {
         let mut rng = ctx.rng_for(uni);
         rep.begin_universe(uni);
+        if uni == 0 {
+            // once per run: the history recorded under the pinned version, continued by the current code
+            crate::legacy::run(rep, "C16");
+        }
         if uni % 10 == 0 {
             standin_gateway(rep);
         }
